@@ -6,7 +6,8 @@ THEOREMS = [
     "C18_budget", "C18_published_trace_ok", "C18_start_clamped",
     "C18_estimated_start_clamped", "C18_float_scalings_monotone", "C18_topup",
     "C18_set_start_max", "C18_retry_start_floor", "C18_retry_monotone",
-    "C18_retry_monotone_refuted",
+    "C18_retry_monotone_refuted", "C18_cpfp_publisher_fee", "C18_fee_with_parent_clamped",
+    "C18_fee_with_parent_unclamped_refuted",
 ]
 MODULE = "LV.Sweep.Props"
 TARGETS = ["theories/Sweep/Props.vo", "theories/Sweep/Exec.vo", "theories/Sweep/Examples.vo",
@@ -99,6 +100,12 @@ def case_term(c):
             zl(e0["verdicts"]), z(ierr), otx_opt(e0["published"]),
             z(e0.get("rate", 0)), z(e0.get("pos", 0)), z(e0.get("recfee", 0)),
             "; ".join(evs))
+    if k == "west":
+        return "CWest %s %s %s [%s] %s %s %s %s" % (
+            z(c["rate"]), z(c["maxr"]), z(c["weight"]),
+            "; ".join("None" if p is None else "(Some (mkPar %s %s %s))" % (z(p[0]), z(p[1]), z(p[2]))
+                      for p in c["parents"]),
+            z(c["fee"]), z(c["feewp"]), z(c["pfee"]), z(c["pweight"]))
     if k == "sw":
         reqs, fails = sw_terms(c)
         return "CSw [%s] [%s]" % (
@@ -197,9 +204,39 @@ def pred_rate(c):
     return fails
 
 
-def check_tx(view, ins, floor, what):
+# what lnd's weight estimator adds on top of the serialized size of a fully
+# signed input (its size constants are upper bounds): a 73-byte signature slot
+# where a low-S DER signature + sighash byte has 72, the 65-byte taproot slot
+# for a 64-byte SIGHASH_DEFAULT signature, and the nested-P2WSH sized sigScript
+# (35 bytes) it reserves for a nested P2WKH input (23 bytes)
+WEIGHT_SLACK = {"WitnessKeyHash": 0, "NestedWitnessKeyHash": 48}
+
+
+def tx_weight_bound(view, ins, floor):
+    """Upper bound of the weight the sweep tx can have, computed from the
+    SERIALIZED transaction (blockchain.GetTransactionWeight) plus the known
+    per-input slack of the size constants, plus the change output when the tx
+    has none (the estimate always reserves one).  Independent of lnd's
+    estimator: this is what the fee must have been computed on."""
+    if "txw" not in view:
+        return None
+    w = view["txw"]
+    for i in view["ins"]:
+        if 0 <= i < len(ins):
+            w += WEIGHT_SLACK.get(ins[i].get("wt"), 1)
+    nreq = sum(1 for i in view["ins"] if 0 <= i < len(ins) and ins[i]["r"] is not None)
+    if len(view["outs"]) == nreq:
+        w += 172 if floor == 330 else 124      # p2tr / p2wkh change output
+    return w
+
+
+def check_tx(view, ins, floor, what, rate=None, weight=None):
     """A tx (ins idx list, outs) against the request: all inputs spent once,
-    required outputs present, optional change >= dust.  Returns (fails, fee)."""
+    required outputs present, optional change >= dust; and - measured on the
+    published transaction itself - the fee it really pays (real input values
+    minus outputs) is the fee of the offered rate on the real tx weight, whatever
+    attributes (unconfirmed parent, locktime, witness type ...) its inputs have.
+    Returns (fails, fee)."""
     fails = []
     n = len(ins)
     if sorted(view["ins"]) != list(range(n)):
@@ -217,13 +254,32 @@ def check_tx(view, ins, floor, what):
     if not outs:
         fails.append("%s: tx without outputs" % what)
     fee = sum(v["v"] for v in ins) - sum(outs)
+    if "txfee" in view and view["txfee"] != fee and sorted(view["ins"]) == list(range(n)):
+        fails.append("%s: tx pays %d but in-out of the request is %d" % (what, view["txfee"], fee))
+    wb = tx_weight_bound(view, ins, floor)
+    if wb is not None:
+        if weight is not None and weight != wb:
+            fails.append("%s: fee computed on weight %d but the serialized tx weighs %d (+slack = %d)"
+                         % (what, weight, view["txw"], wb))
+        if rate is not None:
+            # actual fee vs the fee of the offered rate on the real weight: equal, or
+            # larger by a below-dust change that went to the fee
+            want = rate * wb // 1000
+            extra = fee - want
+            if extra < 0 or (rest and extra != 0) or (not rest and extra >= floor):
+                fails.append("%s: offered rate %d sat/kw on %d wu is %d sat but the tx really pays %d "
+                             "(actual %d sat/kw)" % (what, rate, wb, want, fee,
+                                                     fee * 1000 // max(1, view["txw"])))
+        locks = sorted({ins[i]["lock"] for i in view["ins"] if 0 <= i < n and ins[i].get("lock") is not None})
+        if len(locks) == 1 and view.get("locktime") != locks[0]:
+            fails.append("%s: inputs require locktime %d, tx has %s" % (what, locks[0], view.get("locktime")))
     return fails, fee
 
 
 def pred_tx(c):
     fails = []
     if c["err"] == 0:
-        f, fee = check_tx(c["tx"], c["ins"], c["floor"], "accepted tx")
+        f, fee = check_tx(c["tx"], c["ins"], c["floor"], "accepted tx", c["rate"], c["weight"])
         fails += f
         if fee > c["budget"]:
             fails.append("accepted tx pays fee %d > budget %d" % (fee, c["budget"]))
@@ -231,6 +287,34 @@ def pred_tx(c):
             fails.append("reported fee %d != actual in-out %d" % (c["fee"], fee))
         if fee < 0:
             fails.append("negative fee %d" % fee)
+    return fails
+
+
+def pred_west(c):
+    """weightEstimator: fee() is the rate on the child's weight whatever the
+    parents; feeWithParent() is at least that and, with a max fee rate, at
+    most the max rate on the child's weight; parents paying at least the
+    sweep's rate (and repeated parent txs) are not counted."""
+    fails = []
+    rate, maxr, w = c["rate"], c["maxr"], c["weight"]
+    if c["fee"] != rate * w // 1000:
+        fails.append("fee() %d != rate %d * weight %d / 1000" % (c["fee"], rate, w))
+    cap = maxr * w // 1000
+    if maxr != 0 and c["feewp"] > cap:
+        fails.append("feeWithParent() %d > max fee rate %d * weight %d / 1000" % (c["feewp"], maxr, w))
+    if c["feewp"] < min(c["fee"], cap if maxr != 0 else c["fee"]):
+        fails.append("feeWithParent() %d below the child's fee %d" % (c["feewp"], c["fee"]))
+    seen, pf, pw = set(), 0, 0
+    for p in c["parents"]:
+        if p is None or p[0] in seen:
+            continue
+        if p[1] * 1000 // p[2] >= rate:
+            continue
+        seen.add(p[0])
+        pf += p[1]
+        pw += p[2]
+    if (pf, pw) != (c["pfee"], c["pweight"]):
+        fails.append("parents counted (fee %d, weight %d), expected (%d, %d)" % (c["pfee"], c["pweight"], pf, pw))
     return fails
 
 
@@ -273,13 +357,37 @@ def pred_pub(c):
     # whatever the sweeper derives from them must respect the floor
     floor_applies = bool(c.get("floor_applies")) or start_sup is None or start_sup >= relay
     prev_rate = None
+    prev_fee = None
+    tin = sum(v["v"] for v in c["ins"])
+    treq = sum(v["r"] for v in c["ins"] if v["r"] is not None)
     for k, e in enumerate(c["events"]):
+        if e.get("reserr") == 7:
+            # ErrNotEnoughBudget is only legitimate when a fee the ramp can ask for (at most
+            # the ceiling's, or everything when the change would be dust) exceeds the budget
+            fc = ceiling * c["weight"] // 1000
+            worst = tin - treq if tin - treq - fc < c["floor"] else fc
+            if max(fc, worst) <= budget:
+                fails.append("event %d: sweep failed with ErrNotEnoughBudget although the fee at the "
+                             "ceiling %d sat/kw is %d <= budget %d (never reaches the ceiling)"
+                             % (k, ceiling, max(fc, worst), budget))
         for t in (e["published"] or []):
-            f, fee = check_tx(t, c["ins"], c["floor"], "event %d published tx" % k)
+            rate = t.get("rate", e.get("rate") if e.get("alive") else None)
+            f, fee = check_tx(t, c["ins"], c["floor"], "event %d published tx" % k, rate, c["weight"])
             fails += f
             if fee > budget:
                 fails.append("event %d: published tx pays fee %d > budget %d" % (k, fee, budget))
-            rate = t.get("rate", e.get("rate") if e.get("alive") else None)
+            wb = tx_weight_bound(t, c["ins"], c["floor"])
+            if wb is not None:
+                # on the transaction itself: actual fee rate <= MaxFeeRate (one weight unit of
+                # rounding; a below-dust change may have been added to the fee)
+                nreq = sum(1 for v in c["ins"] if v["r"] is not None)
+                slack = 1 + (c["floor"] - 1 if len(t["outs"]) == nreq else 0)
+                if fee > maxrate * (wb + 1) // 1000 + slack:
+                    fails.append("event %d: published tx really pays %d sat on %d wu = %d sat/kw > MaxFeeRate %d"
+                                 % (k, fee, t["txw"], fee * 1000 // max(1, t["txw"]), maxrate))
+                if prev_fee is not None and fee < prev_fee:
+                    fails.append("event %d: actual fee decreased %d -> %d" % (k, prev_fee, fee))
+                prev_fee = fee
             if rate is None:
                 continue
             if rate > maxrate:
@@ -356,7 +464,11 @@ def pred_sw(c, pubs):
                 for i in ins:
                     dl = offers[i]["deadline"]
                     if dl is None:
-                        dl = hs[offers[i]["at"]] + 1008
+                        # calculateDefaultDeadline: current height, or the locktime of a
+                        # not yet mature input, + NoDeadlineConfTarget
+                        h_off = hs[offers[i]["at"]]
+                        lk = offers[i].get("lock")
+                        dl = (lk if lk is not None and h_off < lk else h_off) + 1008
                     if dl != q["deadline"]:
                         fails.append("request %d: deadline %d but input %d has deadline %d"
                                      % (q["id"], q["deadline"], i, dl))
@@ -467,6 +579,9 @@ def run(ctx):
         elif k == "set":
             fails = pred_set(c)
             thm = "C18_topup"
+        elif k == "west":
+            fails = pred_west(c)
+            thm = "C18_cpfp_publisher_fee/C18_fee_with_parent_clamped"
         elif k == "sw":
             fails = pred_sw(c, pubs_by_case.get(c["case"], {}))
             thm = "C18_retry_start_floor/C18_set_start_max"
